@@ -9,7 +9,12 @@ theorems       : lean/PyamgV/Props/C02.lean.  (1) abstract: the cycle recursion 
                  sweep/iteration logic): read as functions it IS the abstract recursion (`cycle_model_is_cyc`), hence
                  `model_cycle_nonexpansive`: under exact data hypotheses (R = P^T, Galerkin, one stored diagonal per row,
                  0 <= omega <= 2 for GS/SOR, omega A <= 2 D for Jacobi, exact coarsest solve, A0 symmetric PSD) one model cycle
-                 does not increase the energy, for all x, b.
+                 does not increase the energy, for all x, b.  (3) extension E22: `relaxation.polynomial` (Chebyshev, Richardson) is
+                 modelled line by line (`ExtSm.polynomial`, the x = 0 shortcut included), proved to be the linear iteration
+                 x + p(A)(b - A x) and to be energy non-expansive iff ||p(A)A v||_A^2 <= 2 a(p(A)A v, v); sufficient:
+                 0 <= a(p(A)A v, v) <= 2 a(v, v) (`polynomial_nonexpansive`, no spectral theory) or |1 - t p(t)| <= 1 on an
+                 orthogonal eigenbasis (`polynomial_nonexpansive_of_spectrum`); weighted / block Jacobi under omega A <= 2 D; NE/NR
+                 sweeps in the 2-norm of error / residual; `cycle_nonexpansive_of_smoother_family` plugs these into the cycle theorem.
 correspondence : (a) real hierarchies of the four constructors on small SPD matrices (n <= 24) with Gauss-Seidel / SOR /
                  spectral-radius-damped Jacobi smoothing: one real V/W/F cycle `ml.solve(b, x0, maxiter=1)` vs the Lean
                  model run in exact rational arithmetic on the exact float data (A0, the P's, the omega actually used), with
@@ -21,7 +26,11 @@ correspondence : (a) real hierarchies of the four constructors on small SPD matr
                  (b) the numeric hypotheses the theorems leave open, on every generated hierarchy: Galerkin products and
                  R = P^H on every level, exactness of the coarse solver, omega_used * lambda_max(D^-1 A) <= 2 (Jacobi, block
                  Jacobi), omega_used * lambda_max(A) <= 2 (Richardson), |1 - t p(t)| <= 1 on the spectrum (Chebyshev),
-                 (generalised-)inverse property of the stored block / subdomain inverses (block Gauss-Seidel, Schwarz).
+                 (generalised-)inverse property of the stored block / subdomain inverses (block Gauss-Seidel, Schwarz);
+                 (c) part P: `relaxation.polynomial` on small integer Hermitian diagonally dominant matrices (real and complex,
+                 degree 0-3, iterations 0-3, zero and non-zero x, admissible and arbitrary dyadic coefficients) and the installed
+                 Richardson / Chebyshev closures of real hierarchies (coefficients actually used) vs the Lean model (ops ext_poly /
+                 ext_cpoly), tolerance 1e-9; whenever |1 - t p(t)| <= 1 on the spectrum the energies of the real output are compared.
 search         : the dense error-propagation matrix E of one real cycle (n <= 150; over the reals for complex problems, so
                  that a map that is not complex-linear is covered too), ||A^(1/2) E A^(-1/2)||_2 <= 1 + 1e-8, probed in three ways
                  (b = 0 / random b with initial guesses x* - e_j / ZERO initial guess with b = A e_j), for the matrix families /
@@ -53,13 +62,17 @@ META = {
             'input to SA/root-node needs a strength measure, lu/cholesky/splu are replaced by pinv when the coarsest matrix is '
             'singular (rank-deficient P); non-trivial = the hierarchy has >= 2 levels; distinct = distinct (matrix hash, '
             'constructor options, smoothers, coarse solver, cycle)',
-    'search_only': ['Chebyshev smoothing: no theorem beyond the closure lemmas; |1 - t p(t)| <= 1 on the spectrum is checked per level '
-                    'and the cycle is judged by the dense operator norm',
+    'search_only': ['Chebyshev / polynomial smoothing inside a cycle: `polynomial_model_nonexpansive` / `polynomial_nonexpansive_of_spectrum` '
+                    'decide it given |1 - t p(t)| <= 1 on the spectrum, which is checked per level for the coefficients actually '
+                    'installed (assumption); the executable cycle model does not run polynomial smoothers, such cycles are judged by '
+                    'the dense operator norm',
                     'complex Hermitian problems: the abstract theorems (cycle, coarse correction, subspace corrections) apply to '
                     'the real form; the kernel-level theorems and the executable cycle model are real only',
-                    'block Jacobi / block Gauss-Seidel / Schwarz / Richardson kernels: the theorems are about the operator '
-                    'form x + I S I^T (b - A x) resp. x + omega Dinv (b - A x); that the kernels compute this form is C09 '
-                    '(dense formulas), here the (generalised-)inverse property of the stored inverses is checked',
+                    'block Jacobi / block Gauss-Seidel / Schwarz kernels: the theorems are about the operator '
+                    'form x + I S I^T (b - A x) resp. x + omega Dinv (b - A x) (`block_jacobi_is_operator`: the kernel formula '
+                    '(1-omega) x + omega Dinv (b - N x) is that form); that the kernels compute this form is C09 '
+                    '(dense formulas), here the (generalised-)inverse property of the stored inverses is checked; Richardson is '
+                    'the degree-0 case of the polynomial model (part P)',
                     'BSR level matrices with blocks larger than 1 (elasticity): search only (the cycle model takes CSR levels)',
                     'hierarchies with a singular coarsest Galerkin matrix (pseudo-inverse coarse solve): covered by the abstract '
                     'theorem (energy-exact coarsest solve) and the search; the executable model replies `singular`'],
@@ -706,11 +719,18 @@ def nonfinite_fkey(spec):
 def probe(spec):
     """facts about the hierarchy itself, obtained with parameter-free smoothers: non-finite P, level matrices with empty rows"""
     try:
-        ml0 = build(dict(spec, kw=dict(spec['kw'], presmoother='gauss_seidel', postsmoother='gauss_seidel', coarse_solver='pinv')))
+        ml0 = build(dict(spec, history=None,
+                         kw=dict(spec['kw'], presmoother='gauss_seidel', postsmoother='gauss_seidel', coarse_solver='pinv')))
     except Exception:    # noqa: BLE001
         return {}
     return {'nonfinite': any((not np.isfinite(lv.P.data).all()) or (lv.P.nnz and np.abs(lv.P.data).max() > 1e8) for lv in ml0.levels[:-1]),
             'empty_rows': any((np.diff(sp.csr_array(lv.A).indptr) == 0).any() for lv in ml0.levels[:-1])}
+
+
+def ctor_refusal(ex):
+    """an explicit argument check of the constructor refuses the option combination (no hierarchy, nothing to judge):
+    energy smoothing with strength=None on a coarse level stored in blocks (nodal T vs block A)"""
+    return isinstance(ex, ValueError) and 'T row-blocksize should be the same as A blocksize' in str(ex)
 
 
 def schwarz_fkey(spec, ex, facts):
@@ -832,6 +852,10 @@ def run_spec(ctx, spec, En, rng, cycles=None, report_ctor_error=True):
             ctx.violation(f'{ctor} hierarchy ({M["fam"]}, n={En.n}) with Schwarz smoothing: a level matrix has an empty row and '
                           f'schwarz_parameters raises {type(ex).__name__}: {ex}', dict(spec_case(spec), mode='ctor-raise'))
             return None
+        if ctor_refusal(ex):
+            ctx.feat('constructor_refused:' + str(ex)[:40])
+            ctx.case(key=None, nontrivial=False)
+            return None
         ctx.feat('constructor_raised:' + type(ex).__name__)
         ctx.case(key=None, nontrivial=False)
         ctx.corr('constructor raised', spec_case(spec), 'a hierarchy', f'{type(ex).__name__}: {ex}',
@@ -951,7 +975,8 @@ def part_model(ctx, N):
         try:
             ml = build(spec)
         except Exception as ex:    # noqa: BLE001
-            ctx.corr('constructor raised', spec_case(spec), 'a hierarchy', f'{type(ex).__name__}: {ex}')
+            if not ctor_refusal(ex) and not probe(spec).get('nonfinite'):
+                ctx.corr('constructor raised', spec_case(spec), 'a hierarchy', f'{type(ex).__name__}: {ex}')
             continue
         if len(ml.levels) < 2 or any(l.A.format == 'bsr' and tuple(l.A.blocksize) != (1, 1) for l in ml.levels):
             continue
@@ -1182,6 +1207,178 @@ def part_relax(ctx, N):
 
 
 # ------------------------------------------------------------------------------------------------
+# part P (extension E22): `relaxation.polynomial` -- what setup_richardson / setup_chebyshev install -- against the Lean model
+# `ExtSm.polynomial` (op ext_poly / ext_cpoly; proved to be the linear iteration x + p(A)(b - A x), energy non-expansive when
+# 0 <= a(p(A)A v, v) <= 2 a(v, v), i.e. |1 - t p(t)| <= 1 on the spectrum), and the property itself on the real output
+# ------------------------------------------------------------------------------------------------
+
+def _poly_matrix(rng, n, cplx):
+    """small Hermitian strictly diagonally dominant integer matrix (positive definite; float arithmetic on it is exact)"""
+    G = rng.integers(-2, 3, (n, n)) * (rng.random((n, n)) < 0.5)
+    if cplx:
+        G = G + 1j * (rng.integers(-2, 3, (n, n)) * (rng.random((n, n)) < 0.4))
+    U = np.triu(G, 1)
+    A = U + U.conj().T
+    d = np.abs(A.real).sum(1) + np.abs(A.imag).sum(1) + rng.integers(1, 3, n)
+    A = A + np.diag(d)
+    return _i32(sp.csr_array(A.astype(complex if cplx else float)))
+
+
+def _poly_admissible(rng, g, deg):
+    """dyadic coefficients (descending) of p with 1 - t p(t) = prod_j (1 - w_j t), 0 < w_j g <= 2: |1 - t p(t)| <= 1 on [0, g]"""
+    from fractions import Fraction
+    kmin = 0
+    while Fraction(1, 2 ** kmin) * g > 2:
+        kmin += 1
+    q = [Fraction(1)]                                    # ascending coefficients of prod (1 - w t)
+    for _ in range(deg + 1):
+        w = Fraction(1, 2 ** (kmin + int(rng.integers(0, 3))))
+        q = [a - w * c for a, c in zip(q + [Fraction(0)], [Fraction(0)] + q)]
+    asc = [-c for c in q[1:]]                            # p(t) = (1 - q(t)) / t
+    return [float(c) for c in reversed(asc)]
+
+
+def _poly_judge(ctx, what, case, A, coef, x0, b, x1):
+    """the property on the real output: A HPD and |1 - t p(t)| <= 1 on its spectrum => the energy of the error must not grow"""
+    Ad = A.toarray()
+    ev = np.linalg.eigvalsh(Ad)
+    if not ev.min() > 0:
+        return
+    q = 1 - ev * np.polyval(np.real(np.asarray(coef, dtype=float)), ev) if len(coef) else np.ones_like(ev)
+    if np.abs(q).max() > 1 + 1e-10:
+        ctx.feat('poly:damping_bound_fails(correspondence only)')
+        return
+    ctx.feat('poly:damping_bound_holds')
+    xs = np.linalg.solve(Ad, b)
+    e0, e1 = xs - x0, xs - x1
+    E0, E1 = float(np.real(e0.conj() @ Ad @ e0)), float(np.real(e1.conj() @ Ad @ e1))
+    ctx.rel_err(max(0.0, E1 / E0 - 1.0) if E0 > 0 and np.isfinite(E1) else 0.0)
+    if not E1 <= E0 * (1 + TOL) + 1e-300:
+        ctx.violation(f'{what}: |1 - t p(t)| <= {np.abs(q).max():.6g} on the spectrum of the positive definite matrix, yet the energy of '
+                      f'the error grows: {E0:.12g} -> {E1:.12g}', case, detail={'energy_before': E0, 'energy_after': E1})
+
+
+def _poly_line(A, coef, its, b, x0, cplx):
+    from common import enc_crats
+    A = sp.csr_array(A)
+    if cplx:
+        return (f'ext_cpoly {A.shape[0]} {enc_ints(A.indptr)} {enc_ints(A.indices)} {enc_crats(A.data)} '
+                f'{enc_crats(coef)} {its} {enc_crats(b)} {enc_crats(x0)}')
+    return (f'ext_poly {A.shape[0]} {enc_ints(A.indptr)} {enc_ints(A.indices)} {enc_rats(np.real(A.data))} '
+            f'{enc_rats(coef)} {its} {enc_rats(b)} {enc_rats(x0)}')
+
+
+def _poly_decode(o, cplx):
+    from common import dec_crat
+    if cplx:
+        return np.array([float(a) + 1j * float(c) for a, c in (dec_crat(t) for t in dec_list(o))])
+    from fractions import Fraction
+    return np.array([float(Fraction(t)) for t in dec_list(o)])
+
+
+def _poly_installed(rng, t):
+    """a real hierarchy with a Richardson / Chebyshev pre-smoother; returns (A0, closure, (name, kwargs), npseed) or None"""
+    import pyamg
+    M = make_matrix(rng, ['poisson1d', 'graph_shift', 'poisson2d', 'gram'][t % 4], 20)
+    A = _i32(sp.csr_array(M['A']))
+    if A.shape[0] < 3 or A.shape[0] > 24 or np.iscomplexobj(A.data):
+        return None
+    its = int(rng.choice([1, 1, 2, 3]))
+    sm = ('richardson', {'omega': float(rng.choice([0.5, 1.0, 4.0 / 3.0])), 'iterations': its}) if t % 3 == 0 else \
+         ('chebyshev', {'degree': int(rng.integers(1, 5)), 'iterations': its})
+    npseed = int(rng.integers(0, 2 ** 31 - 1))
+    np.random.seed(npseed)
+    ml = pyamg.smoothed_aggregation_solver(A, max_coarse=2, presmoother=sm, postsmoother=sm)
+    if len(ml.levels) < 2:
+        return None
+    return sp.csr_array(ml.levels[0].A), ml.levels[0].presmoother, sm, npseed, M
+
+
+def part_poly(ctx, N):
+    from pyamg.relaxation import relaxation as RX
+    rng = ctx.np_rng
+    items = []
+    for t in range(N):
+        if ctx.time_left() < 8:
+            break
+        mode = 'installed' if t % 4 == 3 else 'raw'
+        if mode == 'raw':
+            n = int(rng.integers(1, 7))
+            cplx = t % 4 == 2
+            A = _poly_matrix(rng, n, cplx)
+            g = float(np.abs(A.toarray()).sum(1).max())
+            deg = int(rng.integers(0, 4))
+            its = int(rng.choice([1, 1, 2, 3])) if t % 11 else 0
+            coef = _poly_admissible(rng, g, deg) if t % 2 == 0 else [float(v) / 16.0 for v in rng.integers(-8, 9, deg + 1)]
+            xs = rng.integers(-8, 9, n) / 8.0 + (1j * rng.integers(-8, 9, n) / 8.0 if cplx else 0)
+            x0 = np.zeros(n, dtype=A.dtype) if t % 5 == 1 else (rng.integers(-8, 9, n) / 8.0 + (1j * rng.integers(-8, 9, n) / 8.0 if cplx else 0)).astype(A.dtype)
+            b = (A @ xs).astype(A.dtype)
+            case = {'mode': 'poly', 'matrix': mat_to_case({'A': A, 'fam': 'poly_int_dd', 'params': {}, 'B': None}), 'coefficients': coef,
+                    'iterations': its, 'x0': x0, 'b': b}
+            x1 = x0.copy()
+            try:
+                RX.polynomial(A, x1, b.copy(), coefficients=list(coef), iterations=its)
+            except Exception as ex:    # noqa: BLE001
+                ctx.violation(f'relaxation.polynomial(coefficients={coef}, iterations={its}) raised {type(ex).__name__}: {ex}', case)
+                continue
+            what = f'relaxation.polynomial(coefficients={coef}, iterations={its}) on a {"complex Hermitian" if cplx else "real symmetric"} ' \
+                   f'strictly diagonally dominant matrix (n={n})'
+        else:
+            try:
+                got = _poly_installed(rng, t)
+            except Exception:    # noqa: BLE001  (constructor problems are the business of the other parts)
+                got = None
+            if got is None:
+                continue
+            A, fn, sm, npseed, M = got
+            name, kw = smoother_params(fn)
+            cplx = False
+            coef = [float(v) for v in (np.real(np.atleast_1d(kw['coefficients'])) if name == 'chebyshev' else [np.real(kw['omega'])])]
+            its = int(kw.get('iterations', 1))
+            n = A.shape[0]
+            xs = rng.integers(-8, 9, n) / 8.0
+            x0 = np.zeros(n) if t % 8 == 3 else rng.integers(-8, 9, n) / 8.0
+            b = A @ xs
+            case = {'mode': 'poly', 'matrix': mat_to_case(dict(M, A=_i32(sp.csr_array(A)))), 'smoother': [sm[0], sm[1]], 'npseed': npseed,
+                    'coefficients': coef, 'iterations': its, 'x0': x0, 'b': b}
+            x1 = x0.copy()
+            try:
+                fn(A, x1, b.copy())
+            except Exception as ex:    # noqa: BLE001
+                ctx.violation(f'the installed {sm[0]} smoother {sm[1]} raised {type(ex).__name__}: {ex}', case)
+                continue
+            if int(sm[1].get('iterations', 1)) != its or (name == 'chebyshev' and len(coef) != sm[1]['degree']):
+                ctx.corr(f'installed {sm[0]} smoother: captured iterations / degree differ from the request', case,
+                         f'iterations={sm[1].get("iterations", 1)}, degree={sm[1].get("degree")}', f'iterations={its}, {len(coef)} coefficients')
+            what = f'the installed {sm[0]} smoother {sm[1]} (coefficients actually used {coef}) on {M["fam"]} (n={n})'
+        items.append({'line': _poly_line(A, coef, its, b, x0, cplx), 'case': case, 'x1': x1, 'A': A, 'coef': coef, 'x0': x0, 'b': b,
+                      'cplx': cplx, 'what': what, 'mode': mode, 'its': its})
+    if not items:
+        return
+    outs = _lean(ctx, [it['line'] for it in items])
+    for it, o in zip(items, outs):
+        ctx.case(key=_key('poly', it['line']), nontrivial=it['its'] >= 1 and it['A'].shape[0] >= 2,
+                 sample={'request': it['line'][:160], 'model': o[:80], 'impl': np.real(it['x1'][:4]).tolist()} if ctx.evaluations % 17 == 0 else None)
+        ctx.feat(f'poly:{it["mode"]}:degree{len(it["coef"]) - 1}:' + ('complex' if it['cplx'] else 'real'))
+        ok = True
+        if o == 'error':
+            ctx.corr('ext_poly: the model rejects the request, the real function returned', it['case'], o, np.real(it['x1']).tolist())
+            ok = False
+        else:
+            xm = _poly_decode(o, it['cplx'])
+            err = float(np.abs(xm - it['x1']).max() / max(1.0, np.abs(xm).max())) if xm.shape == it['x1'].shape else np.inf
+            ctx.rel_err(err if np.isfinite(err) else 0.0)
+            if not err <= 1e-9:
+                ctx.corr(f'{it["what"]}: result differs from the exact model x + p(A)(b - A x), iterated (rel. {err:.3g})', it['case'],
+                         [complex(v) if it['cplx'] else float(np.real(v)) for v in xm], it['x1'].tolist())
+                ok = False
+        if ok:
+            ctx.feat('poly:model_agrees')
+        # the property itself (always: it is cheap), decisive when the correspondence broke
+        _poly_judge(ctx, it['what'], it['case'], it['A'], it['coef'], it['x0'], it['b'], it['x1'])
+
+
+# ------------------------------------------------------------------------------------------------
 # part H: smoother-change histories on the SAME hierarchy object (change_smoothers called 1-3 times before the judged cycle)
 # ------------------------------------------------------------------------------------------------
 
@@ -1282,6 +1479,7 @@ def run(ctx):
     part_history(ctx, ctx.scale(18, 500))
     part_edge(ctx, ctx.scale(63, 900))
     part_search(ctx, ctx.scale(50, 1300), 150 if not ctx.quick else 110)
+    part_poly(ctx, ctx.scale(40, 600))     # last: the random stream of the older parts is unchanged
 
 
 def search(ctx):
@@ -1300,6 +1498,44 @@ def replay(ctx, data):
     case = data.get('case') or (data.get('correspondence_failures') or [{}])[0].get('case')
     if not case or 'matrix' not in case:
         print('this replay file carries no hierarchy (see its theorem_or_obligation / correspondence_failures fields)')
+        return
+    if case.get('mode') == 'poly':
+        from pyamg.relaxation import relaxation as RX
+        A = sp.csr_array(mat_from_case(case['matrix'])['A'])
+        x0 = np.array(_num(case['x0']), dtype=A.dtype)
+        b = np.array(_num(case['b']), dtype=A.dtype)
+        coef, its = [float(c) for c in case['coefficients']], int(case['iterations'])
+        x1 = x0.copy()
+        if case.get('smoother'):
+            import pyamg
+            np.random.seed(case['npseed'])
+            sm = _tup(case['smoother'])
+            ml = pyamg.smoothed_aggregation_solver(A, max_coarse=2, presmoother=sm, postsmoother=sm)
+            fn = ml.levels[0].presmoother
+            name, kw = smoother_params(fn)
+            coef = [float(v) for v in (np.real(np.atleast_1d(kw['coefficients'])) if name == 'chebyshev' else [np.real(kw['omega'])])]
+            fn(A, x1, b.copy())
+            what = f'installed {sm[0]} smoother {sm[1]}'
+        else:
+            RX.polynomial(A, x1, b.copy(), coefficients=list(coef), iterations=its)
+            what = f'relaxation.polynomial(coefficients={coef}, iterations={its})'
+        Ad = A.toarray()
+        xd = x0.copy()
+        for _ in range(int(case.get('smoother') and _tup(case['smoother'])[1].get('iterations', 1) or its)):
+            r = b - Ad @ xd
+            h = np.zeros_like(xd)
+            for c in coef:
+                h = c * r + Ad @ h
+            xd = xd + h
+        err = float(np.abs(xd - x1).max() / max(1.0, np.abs(xd).max()))
+        print(f'{what}: real output vs dense x + p(A)(b - A x) iterated: rel. difference {err:.3g}')
+        if err > 1e-9:
+            ctx.corr(f'{what}: result differs from the dense formula x + p(A)(b - A x), iterated', case, xd.tolist(), x1.tolist())
+        _poly_judge(ctx, what, case, A, coef, x0, b, x1)
+        for v in ctx.violations:
+            print('  ', v['what'])
+        if not ctx.violations:
+            print('   no violation on this input now')
         return
     if case.get('mode') == 'relax':
         from pyamg.relaxation import relaxation as RX
